@@ -4,7 +4,7 @@ import Relay.Model.Rwc
 /-! driver mode `rwc`: the destination-rule model behind the line protocol.
 
 Lines (string fields hex, `-` = empty):
-`add id stream dest` · `del id` · `down dest` · `up dest` · `drop dest` ·
+`add id stream dest` · `del id` · `dell k` (delete the k-th id of the sorted listing, mod its length; a `.delete` of that id) · `down dest` · `up dest` · `drop dest` ·
 `await dest n t [slow]` (n, t = what the harness waits for; ignored here) ·
 `bcast topic ext msg k` / `bcast topic as dest msg k` · `inject dest msg k` (k = receipts to wait for; ignored) ·
 `conns` · `rules`.
@@ -41,6 +41,17 @@ def showRules (s : St) : String :=
     (topicsOf s.cfg p.2.stream).map (fun t => stringToHex p.2.dest ++ "@" ++ stringToHex t))
   s!"rules={showMs rs} clients={showMs cs} regs={showMs regs} orphans={(orphans s).length}"
 
+/-- an index field: 1..6 decimal digits, nothing else -/
+def parseIndex (k : String) : Option Nat :=
+  let cs := k.toList
+  if cs.length = 0 ∨ cs.length > 6 then none
+  else if cs.all (fun c => '0' ≤ c ∧ c ≤ '9') then
+    some (cs.foldl (fun n c => n * 10 + (c.toNat - '0'.toNat)) 0)
+  else none
+
+/-- the ids of the rule listing as the harness prints them: hex, sorted -/
+def listedHex (s : St) : List String := sortMs (s.rules.map (fun p => stringToHex p.1))
+
 def ack (s : St) (op : Op) : St × String := (Rwc.step s op, "ok")
 
 def step (s : St) (fs : List String) : St × String :=
@@ -52,6 +63,17 @@ def step (s : St) (fs : List String) : St × String :=
   | ["del", id] =>
     match hexToString id with
     | some id => ack s (.delete id)
+    | none => (s, "bad-op")
+  | ["dell", k] =>
+    match parseIndex k with
+    | some k =>
+      match listedHex s with
+      | [] => (s, "deleted=none")
+      | h :: hs =>
+        let hid := ((h :: hs)[k % (h :: hs).length]?).getD h
+        match hexToString hid with
+        | some id => (Rwc.step s (.delete id), "deleted=" ++ hid)
+        | none => (s, "bad-op")
     | none => (s, "bad-op")
   | ["down", d] =>
     match hexToString d with
